@@ -193,8 +193,13 @@ CLAIMED["C17"] = {
             "stack.to_string() to the error lazily (with_context on the entrypoint's result), flushes stdout before each banner and returns Err "
             "after it; (c) Parser::assertion builds '{file}:{line}:{col}' in that order from get_source_file_name() and line_col() of the start of "
             "the assert statement's own span, stores it as Assertion.span, Assertion::compile passes exactly that field as the instruction "
-            "argument, and the assert handler returns Ok only on the true edge of equals(.., true) and formats args[0] into its error. Clause (a) "
-            "(no data-dependent panic on an interpreter path) is decided only to the extent listed in the evidence under C17.panic, see DESIGN.md.",
+            "argument, and the assert handler returns Ok only on the true edge of equals(.., true) and formats args[0] into its error. (a) "
+            "inventory over crate bytecode of the MIR panic sites whose operand is program-valued (backward slice reaches a Primitive): overflow / "
+            "division asserts and integer arithmetic through core::ops and core::num (pow, abs, neg), bounds checks and Index on Vec/slice/str/String, "
+            "std calls panicking on an index (Vec::remove/insert/.., String::insert_str/.., str::split_at ..); a site is discharged by a dominating "
+            "range comparison, an is_char_boundary test, the zero-divisor rejection (evaluated abstractly) or unreachability for type-checked "
+            "programs; every remaining site is a violation (five known: integer overflow in + - * / %, which the repository's own test requires "
+            "to panic). unwrap/expect/unreachable! sites rest on typing invariants and are counted, not judged; allocation failure is out of scope.",
     "technique": "static analysis: dominator / no-call-after-failure / must-pass-through rules on the MIR control-flow graphs of the interpreter loop, with field-sensitive origin slicing for the assert position",
     "design_ref": "DESIGN.md §5 C17",
 }
@@ -207,7 +212,7 @@ NOT_APPLICABLE = {
 }
 
 # no hook commits exist; the only commits made to /repo are unguarded "fix:" repairs of genuine defects (see known_findings.json)
-FIX_COMMITS = ["e2ae2a9", "cb2d1e0", "e7575e5", "7bc2f7d", "0af4d83", "e4a4c00", "58e025f", "686179e", "7296d9a", "fa4b68b", "379557f", "4b30646", "0420930", "3aba53e", "2f2a1a1", "40a185d"]
+FIX_COMMITS = ["e2ae2a9", "cb2d1e0", "e7575e5", "7bc2f7d", "0af4d83", "e4a4c00", "58e025f", "686179e", "7296d9a", "fa4b68b", "379557f", "4b30646", "0420930", "3aba53e", "2f2a1a1", "40a185d", "926b1f7", "1bc1139", "80aa30b", "cb4346c"]
 
 PENDING = "check not built yet in this round (framework under construction); planned per DESIGN.md §5/§8"
 
